@@ -11,7 +11,7 @@ from . import c01, c17
 from .indexfx import index_effects
 
 PROP = "C18"
-FLOORS = {"C18.R1": 20, "C18.R2": 4, "C18.R3": 5, "C18.R4": 2}
+FLOORS = {"C18.R1": 20, "C18.R2": 4, "C18.R3": 5, "C18.R4": 2, "C18.R5": 8}
 META = {
     "explanation": "No function on the update path (set_value, run_tasks, find_tasks, find_taskids, toposort and its worker, the run "
                    "methods of the task classes, every _set_value/_get_value/_mk_value of the reference classes) contains a handler that "
@@ -68,8 +68,53 @@ def _update_path_functions(col):
         for cname in ("MutableRef", "ObjectAttrRef"):
             if repo.has_method(cname, meth):
                 out.append(fnctx(repo, cname, meth))
-    rc = repo.cls("RefCount")
+    # private helpers the functions above delegate to (self._helper(...), Class._helper, module-level _helper)
+    seen = {id(cx.fn) for cx in out}
+    work = list(out)
+    while work:
+        cx = work.pop()
+        for c in A.calls(cx.fn):
+            tgt = None
+            if isinstance(c.func, ast.Attribute) and isinstance(c.func.value, ast.Name) and c.func.attr.startswith("_") \
+                    and not c.func.attr.startswith("__") and cx.cls is not None and c.func.value.id in ("self", "cls", cx.cls.name):
+                r = repo.lookup(cx.cls, c.func.attr)
+                if r is not None:
+                    tgt = FnCtx(r[0].module, r[0], r[1])
+            elif isinstance(c.func, ast.Name) and c.func.id.startswith("_") and c.func.id in cx.module.functions:
+                tgt = FnCtx(cx.module, None, cx.module.functions[c.func.id])
+            if tgt is not None and id(tgt.fn) not in seen:
+                seen.add(id(tgt.fn))
+                out.append(tgt)
+                work.append(tgt)
     return out
+
+
+FALLIBLE = ("run", "_get_value", "_set_value", "_mk_value", "action")
+ADAPTORS = ("map", "filter", "starmap", "itertools.starmap", "filterfalse", "itertools.filterfalse", "accumulate", "itertools.accumulate")
+
+
+def _runs_user_code(repo, cx: FnCtx, f, depth=2) -> bool:
+    """does the callable expression f (transitively, to a small depth) run a task / evaluate / write a reference?"""
+    if isinstance(f, ast.Attribute) and f.attr in FALLIBLE:
+        return True
+    if isinstance(f, ast.Call) and A.call_name(f) and A.call_name(f).split(".")[-1] == "methodcaller" and f.args \
+            and isinstance(f.args[0], ast.Constant) and f.args[0].value in FALLIBLE:
+        return True
+    body = None
+    if isinstance(f, ast.Lambda):
+        body = f.body
+    elif isinstance(f, ast.Attribute) and isinstance(f.value, ast.Name) and cx.cls is not None and f.attr in cx.cls.methods:
+        body = cx.cls.methods[f.attr]
+    elif isinstance(f, ast.Name) and f.id in cx.module.functions:
+        body = cx.module.functions[f.id]
+    if body is None:
+        return False
+    for c in A.calls(body):
+        if isinstance(c.func, ast.Attribute) and c.func.attr in FALLIBLE:
+            return True
+        if depth > 0 and _runs_user_code(repo, cx, c.func, depth - 1):
+            return True
+    return False
 
 
 def _no_swallowing(col, rule="C18.R1"):
@@ -102,6 +147,24 @@ def _no_swallowing(col, rule="C18.R1"):
                 col.add(rule, f"{cx.qual}#finally-does-not-swallow", not rets, cx.module.loc(t),
                         "a finally block on the update path does not discard the exception (no return/break/continue)", "")
         # contextlib.suppress and friends
+    n_ad = 0
+    for cx in fns:
+        for c in A.calls(cx.fn):
+            nm = A.call_name(c)
+            if nm in ADAPTORS and c.args:
+                n_ad += 1
+                bad = _runs_user_code(col.repo, cx, c.args[0])
+                col.add(rule, f"{cx.qual}#no-task-under-iterator-adaptor:{nm}", not bad, cx.module.loc(c),
+                        "tasks / evaluations / writes are not driven through map/filter/starmap: a StopIteration raised by user code "
+                        "inside such an adaptor reads as the end of the iteration -- the update stops silently instead of failing",
+                        A.src(c)[:100])
+            if nm == "iter" and len(c.args) == 2:
+                n_ad += 1
+                bad = _runs_user_code(col.repo, cx, c.args[0])
+                col.add(rule, f"{cx.qual}#no-task-under-iterator-adaptor:iter", not bad, cx.module.loc(c),
+                        "tasks are not driven through iter(callable, sentinel) (StopIteration from user code ends the iteration silently)",
+                        A.src(c)[:100])
+    col.count("iterator_adaptors_on_update_path", n_ad)
     for cx in fns:
         for n in A.walk(cx.fn):
             if isinstance(n, ast.With):
@@ -178,3 +241,6 @@ def check(col: Collector):
     _no_state_change_while_running(col)
     _no_early_exit(col)
     _retry_idempotence(col)
+    # "none scheduled after it has run": the schedule lists every task once, after its producers
+    from .toposort_rules import check_toposort
+    check_toposort(col, "C18.R5")
